@@ -186,7 +186,7 @@ class PureEval:
         import math
         self.lib = {"isnan": math.isnan, "isinf": math.isinf, "copysign": math.copysign, "str": str, "repr": repr, "type": type, "tuple": tuple,
                     "frozenset": frozenset, "map": lambda f, xs: tuple(f(x) for x in xs), "isinstance": isinstance, "float": float, "int": int,
-                    "bool": bool, "complex": complex, "bytes": bytes, "len": len, "abs": abs, "any": any, "all": all, "hash": hash,
+                    "bool": bool, "complex": complex, "bytes": bytes, "bytearray": bytearray, "len": len, "abs": abs, "any": any, "all": all, "hash": hash,
                     "range": range, "enumerate": lambda xs, start=0: tuple(enumerate(xs, start)), "reversed": lambda xs: tuple(reversed(xs)),
                     "Counter": __import__("collections").Counter, "sorted": sorted, "list": list, "set": set, "dict": dict, "sum": sum,
                     "min": min, "max": max, "zip": lambda *xs: tuple(zip(*xs)), "filter": lambda f, xs: tuple(x for x in xs if (f(x) if f is not None else x)), "divmod": divmod, "round": round, "ord": ord, "chr": chr}
@@ -602,6 +602,15 @@ class ObjEval(BlockEval):
         self.lib[ci.name] = make
         return make
 
+    def _iterate(self, v):
+        """iter(v): an instance iterates through its class's __iter__ (a generator: the tuple of what it yields)."""
+        if isinstance(v, Obj):
+            ms = self._methods_of(v)
+            if "__iter__" not in ms:
+                raise FevalError("iteration over an instance without __iter__")
+            return list(self.call_method(ms["__iter__"], v))
+        return list(v)
+
     def _replace(self, obj, **changes):
         """dataclasses.replace: a new instance of the same class through its constructor."""
         if not isinstance(obj, Obj) or not callable(self.lib.get(obj.get("__cls__"))) or not hasattr(self.lib[obj["__cls__"]], "cls_name"):
@@ -699,7 +708,7 @@ class ObjEval(BlockEval):
             if isinstance(base, Obj) and "__setitem__" in self._methods_of(base):
                 self.call_method(self._methods_of(base)["__setitem__"], base, self.ev(target.slice, env), value)
                 return
-            if not isinstance(base, (dict, list)) or isinstance(base, Obj):
+            if not isinstance(base, (dict, list, bytearray)) or isinstance(base, Obj):
                 raise FevalError("subscript store on an unsupported object")
             base[self.ev(target.slice, env)] = value
         else:
@@ -774,7 +783,7 @@ class ObjEval(BlockEval):
                         raise FevalError("del target")
                 continue
             if isinstance(st, ast.For):
-                seq = list(self.ev(st.iter, env))
+                seq = self._iterate(self.ev(st.iter, env))
                 if len(seq) > self.MAX_ITER:
                     raise FevalError("loop too long")
                 broke = False
@@ -856,7 +865,7 @@ class ObjEval(BlockEval):
             self._yields[-1].append(self.ev(node.value, env) if node.value is not None else None)
             return None
         if isinstance(node, ast.YieldFrom):
-            self._yields[-1].extend(self.ev(node.value, env))
+            self._yields[-1].extend(self._iterate(self.ev(node.value, env)))
             return None
         if isinstance(node, ast.Set):
             return {self.ev(e, env) for e in node.elts}  # (a real set: this evaluator has reference semantics for containers)
